@@ -32,7 +32,13 @@ def run(ctx):
     binary = ctx.build_adapter("script")
     only = os.environ.get("VERIF_C11_ONLY")
     fams = [f for f in FAMILIES if not only or f in only.split(",")]
-    runs = [("SF_all.cfg", "sf_all")] if (ctx.tier == "quick" and not only) else [("SF_%s.cfg" % f, "sf_" + f) for f in fams]
+    # quick: one TLC process (JVM warm-up dominates short runs); thorough: the big family on its own, the others together
+    if only:
+        runs = [("SF_%s.cfg" % f, "sf_" + f) for f in fams]
+    elif ctx.tier == "quick":
+        runs = [("SF_all.cfg", "sf_all")]
+    else:
+        runs = [("SF_flow.cfg", "sf_flow"), ("SF_rest.cfg", "sf_rest")]
     summary = collections.Counter()
     by_fam = collections.Counter(); model_evals = 0
     nontrivial = set()
